@@ -103,6 +103,17 @@ def probe_ns(name, order, N, steps, seed):
     spec = S.registry()[name](rng, 3, N, order)
     st = spec.build()
     u = np.asarray(sp.make_incompressible(jnp.asarray(nyquist_free(rng, 3, N))))
+    if N >= 9:
+        # energy in every retained mode (a white-noise field, Nyquist components removed, then projected)
+        w = rng.normal(size=(3,) + (N,) * 3)
+        k = np.fft.fftfreq(N, 1 / N)
+        keep = np.ones((N,) * 3, dtype=bool)
+        for d in range(3):
+            sh = [1, 1, 1]
+            sh[d] = N
+            keep &= (np.abs(k).reshape(sh) < N / 2)
+        w = np.stack([np.real(np.fft.ifftn(np.fft.fftn(w[c]) * keep)) for c in range(3)])
+        u = np.asarray(sp.make_incompressible(jnp.asarray(0.3 * w)))
     cur = jnp.asarray(u)
     worst = 0.0
     for _ in range(steps):
@@ -142,13 +153,16 @@ def oracle(ctx, deep):
         if not r["ok"]:
             fails.append({"key": "C10:proj3d", "what": f"ProjectedConvection3d output is not divergence-free (N={N}): {r}",
                           "probe": "proj3d", "args": {"N": N, "seed": ctx.seed}, "observed": r})
+    # N = 12: the smallest even grid on which products of two retained modes (|k| <= 3 under the 2/3 rule) reach the
+    # Nyquist plane N/2 = 6 — what the post-dealiasing of the nonlinear term has to remove
     for name in ("NavierStokesVelocity", "KolmogorovFlowVelocity"):
-        for order in ([2, 4] if not deep else [1, 2, 3, 4]):
-            r = probe_ns(name, order, 6, 5 if not deep else 20, ctx.seed)
-            ctx.count(("oracle_ns", name, order))
+        for order, N in ([(2, 6), (4, 6), (2, 12), (3, 9)] if not deep else [(o, n) for o in (1, 2, 3, 4) for n in (6, 9, 12)]):
+            steps = 5 if not deep else (20 if N == 6 else 5)
+            r = probe_ns(name, order, N, steps, ctx.seed)
+            ctx.count(("oracle_ns", name, order, N))
             if not r["ok"]:
-                fails.append({"key": f"C10:preserve:{name}", "what": f"{name} order {order} does not keep the state divergence-free: {r}",
-                              "probe": "ns", "args": {"name": name, "order": order, "N": 6, "steps": 5, "seed": ctx.seed}, "observed": r})
+                fails.append({"key": f"C10:preserve:{name}", "what": f"{name} order {order} (N={N}) does not keep the state divergence-free: {r}",
+                              "probe": "ns", "args": {"name": name, "order": order, "N": N, "steps": steps, "seed": ctx.seed}, "observed": r})
     seen, out = set(), []
     for f in fails:
         if f["key"] not in seen:
